@@ -112,3 +112,74 @@ def build_system(E, rank, N, closures=None, flags=None, potentials=None, omegas=
 
 def pairs(types):
     return [(a, b) for i, a in enumerate(types) for b in types[i:]]
+
+
+# ---- transforms written from the continuous formulas (C08 proves the code equals these)
+
+def oracle_fourier(E, dr, N, f):
+    """F(k_j) = 4 pi dr Sum_n r_n f_n sin(k_j (r_n - dr/2)) / k_j, k_j (r_n - dr/2) = pi (j+1)(2n+1)/(2N)"""
+    pi = E.pi()
+    out = []
+    for j in range(N):
+        kj = pi * (j + 1) / (dr * N)
+        acc = None
+        for n in range(N):
+            t = (dr * (n + 1)) * f[n] * E.sinpi((j + 1) * (2 * n + 1), 2 * N)
+            acc = t if acc is None else acc + t
+        out.append(4.0 * pi * dr * acc / kj)
+    return out
+
+
+def oracle_real(E, dr, N, F):
+    """f(r_i) = dk/(2 pi^2 r_i) Sum'_n k_n F_n sin(k_n (r_i - dr/2)) (last term halved)"""
+    pi = E.pi()
+    dk = pi / (dr * N)
+    out = []
+    for i in range(N):
+        acc = None
+        for n in range(N):
+            t = (dk * (n + 1)) * F[n] * E.sinpi((n + 1) * (2 * i + 1), 2 * N)
+            if n == N - 1:
+                t = t / 2.0
+            acc = t if acc is None else acc + t
+        out.append(dk * acc / (2.0 * pi * pi * (dr * (i + 1))))
+    return out
+
+
+class HavocClosure(pyPRISM.closure.AtomicClosure):
+    """An arbitrary user closure: calculate returns fresh symbols (used where the claim must hold for any c(r))."""
+    def __init__(self, E, name):
+        self.E = E; self.name = name
+        self.potential = None; self.sigma = None; self.value = None
+        self.calls = 0
+
+    def __deepcopy__(self, memo):
+        c = HavocClosure(self.E, self.name)
+        return c
+
+    def calculate(self, r, gamma):
+        self.calls += 1
+        self.value = self.E.arr('c%s_%d' % (self.name, self.calls), (len(r),), default=-0.3)
+        return self.value
+
+
+def mm(A, B):
+    n = len(A)
+    return [[sum((A[i][k] * B[k][j] for k in range(1, n)), A[i][0] * B[0][j]) for j in range(n)] for i in range(n)]
+
+
+def record_closures(P, types):
+    """wrap the calculate method of the closure objects *inside the PRISM object* so that the real-space closure
+    output of every cost() evaluation is visible (instance attribute; the pyPRISM modules are untouched)."""
+    rec = {}
+    for i, a in enumerate(types):
+        for b in types[i:]:
+            cl = P.sys.closure[a, b]
+            orig = cl.calculate
+
+            def wrapped(r, gamma, orig=orig, key=(a, b)):
+                out = orig(r, gamma)
+                rec[key] = dict(gamma=[gamma[i] for i in range(len(gamma))], out=[out[i] for i in range(len(out))], r=[r[i] for i in range(len(r))])
+                return out
+            cl.calculate = wrapped
+    return rec
